@@ -1367,7 +1367,12 @@ fn evaluate(plan: &PlanB, kernel: &Arc<Kernel>, sh: &Sh, sent_at_ns: &[u64], _en
                     let mut age_lo: u32 = 0;
                     /* the query reached erbium between the instant it was sent and (TCP) the
                      * delivery of its last segment */
-                    let arrive_hi = if q.tcp { g.arrived_hi[qi].max(sent_at_ns[qi]) } else { sent_at_ns[qi] };
+                    let mut arrive_hi = if q.tcp { g.arrived_hi[qi].max(sent_at_ns[qi]) } else { sent_at_ns[qi] };
+                    if q.tcp && q.conn.is_some() {
+                        /* a query that shares its connection with others is read when its turn
+                         * comes, at the latest when its response leaves */
+                        arrive_hi = arrive_hi.max(*at_ns);
+                    }
                     if maybe_cache && !from_cache {
                         age = ((arrive_hi - rep.handed_ns) / 1_000_000_000) as u32;
                     }
@@ -1391,7 +1396,9 @@ fn evaluate(plan: &PlanB, kernel: &Arc<Kernel>, sh: &Sh, sent_at_ns: &[u64], _en
                          * only if some query with q's DO and CD bits can have fetched it. */
                         let dobit = |x: &QuerySpec| x.edns.as_ref().map(|e| e.do_bit).unwrap_or(false);
                         let fetchers: Vec<&QuerySpec> = plan.queries.iter().enumerate().filter(|(oi, o)| o.raw.is_none() && key_of(o) == key_of(rq) && sent_at_ns[*oi] <= rep.handed_hi_ns && *oi != qi).map(|(_, o)| o).collect();
-                        if !fetchers.iter().any(|o| o.cd == q.cd && dobit(o) == dobit(q)) {
+                        /* (a record-less response is attributed by rcode only: it may just as well
+                         * be erbium's own error reply, so it says nothing about cache keys) */
+                        if has_records && !fetchers.iter().any(|o| o.cd == q.cd && dobit(o) == dobit(q)) {
                             res.violate(
                                 "C06",
                                 "C06.entry_served_for_other_key",
@@ -1497,7 +1504,10 @@ fn evaluate(plan: &PlanB, kernel: &Arc<Kernel>, sh: &Sh, sent_at_ns: &[u64], _en
                         if q.tcp && full <= 65535 {
                             res.violate("C04", "C04.tcp_response_truncated_although_it_fits", format!("full answer is about {} octets, client advertised {:?}; the TCP response has {} octets and TC", full, q.edns.as_ref().map(|e| e.size), bytes.len()), qi);
                         }
-                        if !q.tcp && bytes.len() + 64 < adv && encode(um, true).len() + 64 < adv {
+                        /* (judged against the uncompressed size: which names of which record types
+                         * an encoder may compress is its own choice, and with labels of 63 octets
+                         * that choice is worth more than any fixed allowance) */
+                        if !q.tcp && bytes.len() + 64 < adv && encode(um, false).len() + 64 < adv {
                             res.violate("C04", "C04.udp_response_truncated_although_it_fits", format!("limit {} but response cut to {} octets", adv, bytes.len()), qi);
                         }
                     } else {
